@@ -173,15 +173,15 @@ def run_check(prop: Prop, tier: str, seed: int, replay: str | None = None) -> in
         for ex in prop.extractors:
             try:
                 ex(ctx)
-            except Exception:
-                extract_errors.append(traceback.format_exc())
+            except Exception as err:
+                extract_errors.append(f"{type(err).__name__}: {err}".replace("\n", " ")[:400])
         # 2. proof ---------------------------------------------------------------------------
         build_ok, build_log = leanio.lake_build(prop.lean_targets + ["driver"])
     obligations = list(prop.theorems) + list(prop.partial) + list(prop.witnesses)
     broken: list[str] = []
     axioms_seen: dict[str, list[str] | None] = {}
     if extract_errors:
-        broken.append("extraction: " + extract_errors[0].strip().split("\n")[-1])
+        broken.append("extraction: " + extract_errors[0])
     if not build_ok:
         broken.append("lake build: " + "; ".join(leanio.failing_decls(build_log)[:6]))
         notes.append(build_log[-3000:])
